@@ -216,7 +216,10 @@ def check_incr(o):
     comp = c["comp"]
     # "(view narrowed)": the number of ACTIVE components is lowered before every increment - a view on the model; the
     # increments must still be absorbed by the whole model
-    kinds = ["PCAVectorModel", "PCAVectorModel (view narrowed)"] + (["PCAModel"] if X.shape[1] % 2 == 0 else [])
+    # (an ITERATOR of vectors with n_samples is documented for PCAVectorModel.increment but np.array(iterator) makes it fail
+    #  with an IndexError on the pinned tree: an input-form defect outside what C11 states - observed, not judged)
+    kinds = ["PCAVectorModel", "PCAVectorModel (view narrowed)", "PCAVectorModel (list increments)"] + \
+            (["PCAModel"] if X.shape[1] % 2 == 0 else [])
     for tag in kinds:
         narrowed = tag.endswith("(view narrowed)")
         wrap = (lambda A: [PointCloud(x.reshape(-1, 2)) for x in A]) if tag == "PCAModel" else (lambda A: A.copy())
@@ -230,7 +233,12 @@ def check_incr(o):
                 zero_mean_before = centre and bool(np.all(m._mean == 0))
                 if narrowed and m.n_components > 1:
                     m.n_active_components = 1
-                m.increment(wrap(X[a:a + comp[k]]))
+                if tag.endswith("(list increments)"):
+                    m.increment([row.copy() for row in X[a:a + comp[k]]])          # the samples as a plain list of vectors
+                elif tag.endswith("(iterator + n_samples)"):
+                    m.increment((row.copy() for row in X[a:a + comp[k]]), n_samples=comp[k])
+                else:
+                    m.increment(wrap(X[a:a + comp[k]]))
                 a += comp[k]
                 if zero_mean_before:
                     kind = "ipca_zero_mean_treated_as_uncentred"
